@@ -38,6 +38,11 @@
 #include "object.c"
 #elif VF_UNIT == 7
 #include "sizedstr.c"
+#elif VF_UNIT == 8
+#include <yara/rules.h>
+#include <yara/compiler.h>
+#include "arena.c"
+#include "rules.c"
 #endif
 
 #define OK_OR_NOMEM(r) VF_ASSERT((r) == ERROR_SUCCESS || (r) == ERROR_INSUFFICIENT_MEMORY, "result is success or ERROR_INSUFFICIENT_MEMORY")
@@ -178,6 +183,33 @@ int main(void)
     yr_free(a);
   }
   VF_ASSERT(vf_live == 0, "nothing leaks");
+#elif VF_UNIT == 8
+  /* yr_rules_from_arena + yr_rules_destroy on a minimal well-formed arena (no rules, no externals) */
+  vf_fail_enabled = 0;
+  YR_ARENA* a = NULL;
+  int r = yr_arena_create(YR_NUM_SECTIONS, 64, &a);
+  VF_ASSUME(r == ERROR_SUCCESS);
+  YR_SUMMARY sum = {0, 0, 1};
+  YR_RULE nullrule; memset(&nullrule, 0, sizeof(nullrule)); nullrule.flags = RULE_FLAGS_NULL;
+  YR_EXTERNAL_VARIABLE nullext; memset(&nullext, 0, sizeof(nullext)); nullext.type = EXTERNAL_VARIABLE_TYPE_NULL;
+  YR_NAMESPACE ns; memset(&ns, 0, sizeof(ns));
+  VF_ASSUME(yr_arena_write_data(a, YR_SUMMARY_SECTION, &sum, sizeof(sum), NULL) == ERROR_SUCCESS);
+  VF_ASSUME(yr_arena_write_data(a, YR_RULES_TABLE, &nullrule, sizeof(nullrule), NULL) == ERROR_SUCCESS);
+  VF_ASSUME(yr_arena_write_data(a, YR_EXTERNAL_VARIABLES_TABLE, &nullext, sizeof(nullext), NULL) == ERROR_SUCCESS);
+  VF_ASSUME(yr_arena_write_data(a, YR_NAMESPACES_TABLE, &ns, sizeof(ns), NULL) == ERROR_SUCCESS);
+  vf_fail_enabled = 1;
+  YR_RULES* rules = NULL;
+  r = yr_rules_from_arena(a, &rules);
+  OK_OR_NOMEM(r);
+  vf_fail_enabled = 0;
+  if (r == ERROR_SUCCESS)
+  {
+    VF_ASSERT(rules != NULL && rules->num_rules == 0, "success yields the rule set");
+    int dr = yr_rules_destroy(rules);
+    VF_ASSERT(dr == ERROR_SUCCESS, "the rule set can be destroyed");
+  }
+  yr_arena_release(a); /* our own reference */
+  VF_ASSERT(vf_live == 0, "nothing leaks whether or not yr_rules_from_arena succeeded");
 #endif
   VF_WITNESS("end");
   return 0;
